@@ -3,6 +3,7 @@ package main
 import (
 	"fmt"
 	"strings"
+	"verif/harness/internal/mem"
 
 	"github.com/casbin/casbin/v2"
 	"github.com/casbin/casbin/v2/rbac"
@@ -222,7 +223,16 @@ func c05CondEnforcer(c *Ctx) {
 		} else {
 			c.W.Op("new plain", "ok")
 		}
-		e, err := casbin.NewEnforcer(mustModel(text))
+		// every other pair of cases on an enforcer whose policy came from an adapter: the model in use is
+		// then the copy LoadPolicy made, not the one that was parsed
+		var e *casbin.Enforcer
+		var err error
+		if i%4 >= 2 {
+			e, err = casbin.NewEnforcer(mustModel(text), mem.New())
+			c.Count("cond_enforcer_loaded_from_adapter", 1)
+		} else {
+			e, err = casbin.NewEnforcer(mustModel(text))
+		}
 		if err != nil {
 			panic(err)
 		}
